@@ -10,7 +10,7 @@ import re
 import numpy as np
 
 import builders_h5 as bh
-from common import Rng, enc_bool, enc_float, enc_list, enc_listlist, errname
+from common import Rng, dec_float, enc_bool, enc_float, enc_list, enc_listlist, enc_rat, errname
 
 PROP = "C05"
 THEOREMS = [
@@ -25,6 +25,12 @@ THEOREMS = [
     "Verif.C05.crop_absent_iff_empty",
     "Verif.C05.crop_crop",
     "Verif.C05.keepMeta_spec",
+    "Verif.C05.roundHalfEven_nearest",
+    "Verif.C05.roundHalfEven_tie_even",
+    "Verif.C05.double_rounding_std",
+    "Verif.C05.period_round_trip",
+    "Verif.C05.period_round_trip_double",
+    "Verif.C05.F7_witness_exact",
     "Verif.C05.pixels_split",
     "Verif.C05.cropped_kymo_lines",
     "Verif.C05.attr_table_nodup",
@@ -277,7 +283,11 @@ def ops(case):
     if k == "cal":
         return [f"c05.cal {enc_list(case['times'])} {case['start']} {case['stop']}"]
     if k == "dt":
-        return [f"c05.dt {enc_float(1e9 / case['dt'])}"]
+        # the double arithmetic of the code, executed (i) by Lean's Float and (ii) exactly over Rat by the model's
+        # own round-to-nearest-even (`flDouble`), which is what the theorems are about
+        return [f"c05.dt {enc_float(1e9 / case['dt'])}", f"c05.rateq {case['dt']}", f"c05.dtq {enc_rat(1e9 / case['dt'])}"]
+    if k == "dtr":
+        return [f"c05.dtq {enc_rat(dec_float(case['rate']))}"]
     if k == "omit":
         return [f"c05.omit {enc_listlist([[ord(c) for c in p] for p in case['pats']])} {enc_listlist([[ord(c) for c in p] for p in case['paths']])}"]
     if k == "attrs":
@@ -340,6 +350,13 @@ def impl(case):
             from lumicks.pylake.channel import Continuous
 
             s = Continuous.from_dataset(FakeDset({"Start time (ns)": 0, "Sample rate (Hz)": 1e9 / case["dt"]}, 3))
+            stored = Continuous(np.arange(3.0), 0, case["dt"]).sample_rate  # what to_dataset writes
+            s2 = Continuous.from_dataset(FakeDset({"Start time (ns)": 0, "Sample rate (Hz)": stored}, 3))
+            return [str(public_dt(s)), enc_rat(float(stored)), str(public_dt(s2))]
+        if k == "dtr":
+            from lumicks.pylake.channel import Continuous
+
+            s = Continuous.from_dataset(FakeDset({"Start time (ns)": 0, "Sample rate (Hz)": dec_float(case["rate"])}, 3))
             return [str(public_dt(s))]
         if k == "omit":
             return [_omit_impl(case)]
@@ -547,7 +564,33 @@ def oracle(case, ia):
         exp = ([pre[-1]] if pre else []) + [i for i, t in items if a < t < b]
         return None if ia[0] == enc_list(exp) else f"calibration-filter: got {ia[0]}, the items that apply to [{a},{b}) are {enc_list(exp)}"
     if k == "dt":
-        return None if ia[0] == str(case["dt"]) else f"sample-period: stored rate 1e9/{case['dt']} Hz was read back with period {ia[0]} ns"
+        if ia[0] != str(case["dt"]) or (len(ia) > 2 and ia[2] != str(case["dt"])):
+            return f"sample-period: stored rate 1e9/{case['dt']} Hz was read back with period {ia[0]} / {ia[-1]} ns"
+        if len(ia) > 1:
+            from fractions import Fraction
+
+            # the stored rate is the period's rate to double precision (the hypothesis of period_round_trip)
+            exact = Fraction(10**9, case["dt"])
+            try:
+                p_, q_ = ia[1].split("/")
+                got = Fraction(int(p_), int(q_))
+            except Exception:
+                return f"sample-rate: {ia[1]}"
+            if abs(got - exact) * 2**53 > exact:
+                return f"sample-rate: a {case['dt']} ns channel stores {float(got)!r} Hz, not 1e9/{case['dt']} to double precision"
+        return None
+    if k == "dtr":
+        from fractions import Fraction
+
+        # the period read is a nearest integer to 1e9/rate (one ulp of slack for the rounded division)
+        exact = Fraction(10**9) / Fraction(dec_float(case["rate"]))
+        try:
+            got = int(ia[0])
+        except ValueError:
+            return f"sample-period: rate {dec_float(case['rate'])!r} Hz read as {ia[0]}"
+        if abs(got - exact) > Fraction(1, 2) + exact / 2**52:
+            return f"sample-period: rate {dec_float(case['rate'])!r} Hz read back with period {got} ns, nearest is {float(exact)!r}"
+        return None
     if k == "omit":
         exp = enc_list([not any(_fnmatch.fnmatchcase(p, q) for q in case["pats"]) for p in case["paths"]], enc_bool)
         return None if ia[0] == exp else f"omit: datasets present {ia[0]}, expected {exp} for patterns {case['pats']}"
@@ -677,7 +720,7 @@ def nontrivial(case, ia):
     k = case["op"]
     if k in ("cal", "omit"):
         return ia[0] not in ("[]",) and ("T" in ia[0] or "F" in ia[0] or any(ch.isdigit() for ch in ia[0]))
-    if k == "dt":
+    if k in ("dt", "dtr"):
         return True
     if k == "attrs":
         return len(case["present"]) > 0
@@ -814,7 +857,7 @@ def cases(tier, rng):
 
     quick = tier == "quick"
     # ---- corpus
-    for dt in (55, 57, 110, 12800, 1):
+    for dt in (55, 57, 110, 12800, 1, 2**50, 2**50 - 1, 10**9, 10**9 + 1):
         yield {"stream": "corpus", "op": "dt", "dt": dt}
     # F1 consequence: a crop window that ends more than one period before a channel begins
     spec = {
@@ -857,6 +900,22 @@ def cases(tier, rng):
     for i in range(2000 if quick else 100000):
         sub = r.fork(("dt", i))
         yield {"stream": "random", "op": "dt", "dt": sub.choice([sub.randint(1, 10**5), sub.randint(1, 10**9), sub.randint(1, 10**7)]), "subseed": i}
+    for i in range(600 if quick else 20000):
+        # periods up to 2^50 (the range of period_round_trip) and arbitrary stored rates, incl. rates whose period
+        # is (nearly) half-way between two integers
+        sub = r.fork(("dtbig", i))
+        c = sub.randint(0, 3)
+        if c == 0:
+            yield {"stream": "random", "op": "dt", "dt": min(max(2 ** sub.randint(0, 50) + sub.randint(-3, 3), 1), 2**50) if sub.chance(0.5) else sub.randint(1, 2**50), "subseed": i}
+            continue
+        n = sub.choice([sub.randint(1, 200), sub.randint(1, 10**6), sub.randint(1, 2**40)])
+        if c == 1:
+            rate = 1e9 / (n + 0.5)
+        elif c == 2:
+            rate = float(np.nextafter(1e9 / (n + 0.5), sub.choice([0.0, 1e300])))
+        else:
+            rate = sub.randint(1, 10**9) / sub.choice([1, 3, 7, 1000, 4096])
+        yield {"stream": "random", "op": "dtr", "rate": enc_float(rate), "subseed": i}
     for i in range(40 if quick else 400):
         sub = r.fork(("omit", i))
         ps = ["G%d/d%d" % (sub.randint(0, 2), sub.randint(0, 3)) for _ in range(sub.randint(1, 4))] + ["Force HF/Force 1x"]
